@@ -129,6 +129,11 @@ def run(ctx):
                             continue
                         cases.append({"s": "%02d:%02d" % (hh, mi), "langs": ["en"], "settings": {"RELATIVE_BASE": b, "PREFER_DATES_FROM": pref, "TIMEZONE": tzn},
                                       "expect": expect_str(cand), "stratum": "time/%s/iana-boundary" % pref, "_rule": None})
+                        # the same reference given as an aware datetime (the instant is the same, so is the answer)
+                        if delta in (-2, 40):
+                            cases.append({"s": "%02d:%02d" % (hh, mi), "langs": ["en"],
+                                          "settings": {"RELATIVE_BASE": b.replace(tzinfo=dt.timezone.utc), "PREFER_DATES_FROM": pref, "TIMEZONE": tzn},
+                                          "expect": expect_str(cand), "stratum": "time/%s/iana-aware-reference" % pref, "_rule": None})
     # month [+ day] without year, and Feb 29: the property asks for an occurrence on the right side of the reference
     # (not necessarily the nearest one), inside the reference year for current_period, with the named parts kept
     def side_pred(b, m, d, pref, period):
